@@ -94,6 +94,13 @@ def observe_case(term, sp, res, deep=False):
         em = res.get('emit')
         if em is not None and tuple(em) != (-1,):
             info['drift_text'] = (''.join(map(chr, em)) != emitted)
+        inf = res.get('inf')
+        if inf and inf.get('ty'):
+            # ImplInfer: the transcribed __infer_type on Emit(v) against what the code inferred for its own text
+            info['drift_infer'] = (p._get_type().name != inf['ty'] or p._is_repeatable() != inf['rep'])
+            if info['drift_infer']:
+                info['drift_infer_detail'] = {'emitted': emitted, 'code': [p._get_type().name, p._is_repeatable()],
+                                              'model': [inf['ty'], inf['rep']], 'text_equal': info.get('drift_text') is False}
     if not res['ok']:
         fails.append(('accepted', {'observed': 'ok', 'emitted': emitted, 'expected_ex': sorted(res['ex'])}))
         return fails, info
@@ -201,6 +208,13 @@ def judge(payload, params):
             if 'drift_type' in info:
                 stats['drift:type-compared'] += 1
                 stats['drift:type-differs'] += int(info['drift_type'])
+            if 'drift_infer' in info:
+                stats['drift:infer-compared'] += 1
+                stats['drift:infer-differs'] += int(info['drift_infer'])
+                if info['drift_infer'] and info['drift_infer_detail']['text_equal']:
+                    stats['drift:infer-differs-on-equal-text'] += 1
+                    if len(samples) < 6:
+                        samples.append(dict(info['drift_infer_detail'], drift='infer', term=B.render(term)))
             if 'drift_text' in info:
                 stats['drift:text-compared'] += 1
                 stats['drift:text-differs'] += int(info['drift_text'])
